@@ -109,10 +109,10 @@ theorem Inv.nff {C : Nat → Prop} {gid n : Nat} {ids0 : Nat → Nat} {size0 : N
 
 section scans
 variable (M : Mat) (md gid n : Nat) (C : Nat → Prop)
-variable (hC : ∀ j k, C j → M j k = md → C k) (hg : gid ≠ 0)
+variable (hC : ∀ j k, j < n → k < n → C j → M j k = md → C k) (hg : gid ≠ 0)
 include hC hg
 
-theorem scanK_inv (j : Nat) (ids0 : Nat → Nat) (size0 : Nat) :
+theorem scanK_inv (j : Nat) (hjn : j < n) (ids0 : Nat → Nat) (size0 : Nat) :
     ∀ (f k : Nat) (s : Scan), k + f = n → Inv C gid n ids0 size0 s → s.ids j = gid →
       Inv C gid n ids0 size0 (scanK M md gid j f k s) ∧ (scanK M md gid j f k s).ids j = gid
   | 0, _, s, _, hi, hj => ⟨hi, hj⟩
@@ -120,7 +120,7 @@ theorem scanK_inv (j : Nat) (ids0 : Nat → Nat) (size0 : Nat) :
     unfold scanK
     by_cases hc : s.ids k = 0 ∧ M j k = md
     · rw [if_pos hc]
-      apply scanK_inv j ids0 size0 f (k+1) _ (by omega)
+      apply scanK_inv j hjn ids0 size0 f (k+1) _ (by omega)
       · refine ⟨?_, ?_, ?_, ?_⟩
         · intro x hx
           have hxk : x ≠ k := by
@@ -140,29 +140,34 @@ theorem scanK_inv (j : Nat) (ids0 : Nat → Nat) (size0 : Nat) :
         · intro x hx
           have hx' : upd s.ids k gid x = gid := hx
           by_cases hxk : x = k
-          · subst hxk; exact hC j x (hi.conn j hj) hc.2
+          · subst hxk; exact hC j x hjn (by omega) (hi.conn j hj) hc.2
           · rw [upd_other _ _ hxk] at hx'; exact hi.conn x hx'
       · show upd s.ids k gid j = gid
         by_cases hjk : j = k
         · subst hjk; exact upd_same _ _ _
         · rw [upd_other _ _ hjk]; exact hj
     · rw [if_neg hc]
-      exact scanK_inv j ids0 size0 f (k+1) s (by omega) hi hj
+      exact scanK_inv j hjn ids0 size0 f (k+1) s (by omega) hi hj
 
 theorem scanJ_inv (ids0 : Nat → Nat) (size0 : Nat) :
-    ∀ (f j : Nat) (s : Scan), Inv C gid n ids0 size0 s → Inv C gid n ids0 size0 (scanJ M md gid n f j s)
-  | 0, _, _, hi => hi
-  | f+1, j, s, hi => by
+    ∀ (f j : Nat) (s : Scan), j + f ≤ n → Inv C gid n ids0 size0 s → Inv C gid n ids0 size0 (scanJ M md gid n f j s)
+  | 0, _, _, _, hi => hi
+  | f+1, j, s, hb, hi => by
     unfold scanJ
     by_cases hj : s.ids j = gid
     · rw [if_pos hj]
-      exact scanJ_inv ids0 size0 f (j+1) _ (scanK_inv M md gid n C hC hg j ids0 size0 n 0 s (by omega) hi hj).1
+      exact scanJ_inv ids0 size0 f (j+1) _ (by omega)
+        (scanK_inv M md gid n C hC hg j (by omega) ids0 size0 n 0 s (by omega) hi hj).1
     · rw [if_neg hj]
-      exact scanJ_inv ids0 size0 f (j+1) s hi
+      exact scanJ_inv ids0 size0 f (j+1) s (by omega) hi
 
 theorem pass_inv (ids0 : Nat → Nat) (size0 ff : Nat) (ids : Nat → Nat) (size : Nat)
-    (h : Inv C gid n ids0 size0 ⟨ids, size, none⟩) : Inv C gid n ids0 size0 (pass M md gid n ff ids size) :=
-  scanJ_inv M md gid n C hC hg ids0 size0 _ _ _ h
+    (h : Inv C gid n ids0 size0 ⟨ids, size, none⟩) : Inv C gid n ids0 size0 (pass M md gid n ff ids size) := by
+  unfold pass
+  by_cases hff : ff ≤ n
+  · exact scanJ_inv M md gid n C hC hg ids0 size0 _ _ _ (by omega) h
+  · have : n - ff = 0 := by omega
+    rw [this]; exact h
 
 theorem grow_inv (ids0 : Nat → Nat) (size0 : Nat) :
     ∀ (fuel ff : Nat) (ids : Nat → Nat) (size : Nat) (r : (Nat → Nat) × Nat),
@@ -216,7 +221,7 @@ theorem grow_fuel (M : Mat) (md gid n : Nat) (hg : gid ≠ 0) :
     split
     · exact ⟨_, rfl⟩
     · rename_i k hk
-      have hp := pass_inv M md gid n (fun _ => True) (fun _ _ _ _ => trivial) hg ids size ff ids size
+      have hp := pass_inv M md gid n (fun _ => True) (fun _ _ _ _ _ _ => trivial) hg ids size ff ids size
         (Inv.refl none (fun _ _ => trivial))
       have hgrew := pass_grew M md gid n ff ids size (by rw [hk]; rfl)
       have hc := hp.cnt
@@ -258,7 +263,7 @@ theorem outerStep_inv (M : Mat) (md n i : Nat) (hi : i < n) (o : Out) (h : OInv 
       · subst hxi; exact Conn.base
       · rw [upd_other _ _ hxi] at hx
         have := h.bound x; omega
-    have hI := grow_inv M md o.gid n (Conn M md i) (fun j k hj hm => Conn.step hj hm) hg (upd o.ids i o.gid) 1
+    have hI := grow_inv M md o.gid n (Conn M md i) (fun j k _ _ hj hm => Conn.step hj hm) hg (upd o.ids i o.gid) 1
       (n + 1) i (upd o.ids i o.gid) 1 r hbase hr
     obtain ⟨ids', size'⟩ := r
     have hmono : ∀ x, upd o.ids i o.gid x ≠ 0 → ids' x = upd o.ids i o.gid x := hI.mono
